@@ -2,8 +2,12 @@ package props
 
 import (
 	"context"
+	"encoding/json"
+	"flag"
 	"fmt"
 	"log/slog"
+	"net/http"
+	"net/http/httptest"
 	"sort"
 	"strings"
 	"time"
@@ -24,7 +28,7 @@ func init() {
 	register(&Prop{
 		ID:  "C05",
 		Run: runC05,
-		Rule: "one case = a random core tree (<= 12 nodes, depth <= 4: observer and IO leaves with static, shared-AtomicLevel or arbitrary 256-bit-set enablers under tee / increase-level / hooks / pass-all sampler / lazy-with / With nodes) under a Logger with sugared, slog and gRPC views, and a history of <= 24 operations (log at any of 256 level values through a drawn front end with a counting marshaler, Enabled/Level/LevelOf/V queries, SetLevel on shared AtomicLevels), executed by 1 task (exact history semantics) or 2-3 tasks with level changes racing log calls under a seeded schedule; " +
+		Rule: "one case = a random core tree (<= 12 nodes, depth <= 4: observer and IO leaves with static, shared-AtomicLevel or arbitrary 256-bit-set enablers under tee / increase-level / hooks / pass-all sampler / lazy-with / With nodes) under a Logger with sugared, slog and gRPC views, and a history of <= 24 operations (log at any of 256 level values through a drawn front end with a counting marshaler, Enabled/Level/LevelOf/V queries, changes of shared AtomicLevels through SetLevel, UnmarshalText, JSON decoding, flag.TextVar and the HTTP PUT handler), executed by 1 task (exact history semantics) or 2-3 tasks with level changes racing log calls under a seeded schedule; " +
 			"non-trivial = the tree has at least 3 nodes and at least one entry was delivered and one suppressed; distinct = distinct hash of (tree shape, scheduling decisions, sequence of (level, delivery set))",
 		Real: []string{"zap.Logger.check and all front ends, SugaredLogger, zapslog.Handler, zapgrpc.Logger", "zapcore ioCore, multiCore (tee), levelFilterCore, hooked, sampler, lazyWithCore, LevelOf", "zap.AtomicLevel", "zaptest/observer"},
 		Stub: []string{"IO leaf sinks (zsim.SimSink)", "hooks (counting)", "marshaler (counting)", "clock"},
@@ -352,6 +356,37 @@ func (w *c5world) build(n *c5node, frag int) zapcore.Core {
 	return n.core
 }
 
+// c5set changes a shared AtomicLevel: directly, or the way a configuration
+// re-read or an operator does it - through its text, JSON, flag or HTTP form,
+// applied to a copy of the handle (all copies share the level).
+func c5set(a zap.AtomicLevel, l zapcore.Level, via int) {
+	var err error
+	switch via {
+	case 0:
+		a.SetLevel(l)
+	case 1:
+		err = a.UnmarshalText([]byte(l.String()))
+	case 2:
+		err = a.UnmarshalText([]byte(l.CapitalString()))
+	case 3:
+		err = json.Unmarshal([]byte(`"`+l.String()+`"`), &a)
+	case 4:
+		fs := flag.NewFlagSet("c05", flag.ContinueOnError)
+		fs.TextVar(&a, "level", a, "")
+		err = fs.Parse([]string{"-level", l.String()})
+	case 5:
+		req, _ := http.NewRequest("PUT", "/level", strings.NewReader(`{"level":"`+l.String()+`"}`))
+		rec := httptest.NewRecorder()
+		a.ServeHTTP(rec, req)
+		if rec.Code != 200 {
+			err = fmt.Errorf("PUT answered %d", rec.Code)
+		}
+	}
+	if err != nil {
+		panic(fmt.Sprintf("C05 harness: setting level %v via route %d failed: %v", l, via, err))
+	}
+}
+
 type c5noopHook struct{}
 
 func (c5noopHook) OnWrite(*zapcore.CheckedEntry, []zapcore.Field) {}
@@ -365,6 +400,7 @@ type c5op struct {
 	// concurrent member: harness event numbers and possible valuations
 	inv, ret int64
 	sib      int // 1/2: logged through hook sibling A/B
+	via      int // setlevel: 0 SetLevel, else a textual / HTTP route to the same shared level
 }
 
 const (
@@ -491,6 +527,9 @@ func runC05(c *Ctx) {
 					op.level = c5interesting[g.Draw(len(c5interesting))]
 				} else {
 					op.level = zapcore.Level(g.Draw(9) - 2)
+				}
+				if op.level >= zapcore.DebugLevel && op.level <= zapcore.FatalLevel && g.Chance(3) {
+					op.via = 1 + g.Draw(5)
 				}
 			}
 			progs[t] = append(progs[t], op)
@@ -831,7 +870,7 @@ func runC05(c *Ctx) {
 					ev++
 					s := &setEv{atom: op.atom, level: op.level, inv: ev}
 					sets = append(sets, s)
-					w.atoms[op.atom].SetLevel(op.level)
+					c5set(w.atoms[op.atom], op.level, op.via)
 					ev++
 					s.ret = ev
 					if nTasks == 1 {
